@@ -50,13 +50,17 @@ func (ex *Exec) subRef(base *Term, st types.Type, i int, s *State) *Term {
 		r := V("r!sub", SRef)
 		sr := App(name, SRef, r)
 		ax := &Term{Op: "forall", Sort: SBool, Bound: []Bound{{"r!sub", SRef}}, Pat: []*Term{sr},
-			Args: []*Term{And(Eq(App("parent_"+name, SRef, sr), r), Neq(sr, TNull))}}
+			Args: []*Term{And(Eq(App("parent_"+name, SRef, sr), r), Neq(sr, TNull), Not(App("is_root", SBool, sr)))}}
+		ex.ctx.Fun("is_root", []string{SRef}, SBool)
+		ex.subFuns = append(ex.subFuns, name)
 		ex.axioms = append(ex.axioms, ax)
 	}
 	t := App(name, SRef, base)
 	if ex.ghost == 0 {
 		ex.assumeGlobal(Eq(App("parent_"+name, SRef, t), base))
 		ex.assumeGlobal(Neq(t, TNull))
+		// a sub-object is part of its parent: allocation never returns it
+		ex.assumeGlobal(Not(App("is_root", SBool, t)))
 	}
 	return t
 }
